@@ -111,6 +111,34 @@ struct is_view_like<T, decltype(void(sbepp::addressof(std::declval<T&>())))> : s
 };
 
 // true for views / array refs over a const byte type: mutating ops do not exist for them
+
+// Iterator arithmetic takes the iterator's signed difference_type (int8_t for an 8-bit numInGroup): a
+// distance above its maximum is not a value the call can be given. The driver moves in steps that fit.
+template<class It>
+It advanced(It it, std::ptrdiff_t d)
+{
+    using D = typename It::difference_type;
+    const std::ptrdiff_t lim = static_cast<std::ptrdiff_t>(std::numeric_limits<D>::max());
+    while(d > lim)
+    {
+        it += static_cast<D>(lim);
+        d -= lim;
+    }
+    while(d < -lim)
+    {
+        it -= static_cast<D>(lim);
+        d += lim;
+    }
+    it += static_cast<D>(d);
+    return it;
+}
+template<class It>
+bool fits_difference(std::ptrdiff_t d)
+{
+    using D = typename It::difference_type;
+    return d <= static_cast<std::ptrdiff_t>(std::numeric_limits<D>::max()) && d >= static_cast<std::ptrdiff_t>(std::numeric_limits<D>::min());
+}
+
 template<class V>
 constexpr bool is_ro()
 {
@@ -500,7 +528,7 @@ void group_op(Ctx& cx, G g, Flat)
                 // the walk to the new last entry is the driver's own loop: with a hostile numInGroup it
                 // must not become the thing that is measured (flat groups jump, nested ones walk a bounded way)
                 if constexpr(Flat::value)
-                    record_entry(cx, *(g.begin() + static_cast<std::ptrdiff_t>(n0)));
+                    record_entry(cx, *advanced(g.begin(), static_cast<std::ptrdiff_t>(n0)));
                 else if(n0 <= 4096)
                 {
                     size_type i = 0;
@@ -519,10 +547,19 @@ void group_op(Ctx& cx, G g, Flat)
             auto b = g.begin();
             for(size_type i = 0; i < n; i++)
             {
-                record_entry(cx, *(b + static_cast<std::ptrdiff_t>(i)));
-                record_entry(cx, b[static_cast<std::ptrdiff_t>(i)]);
+                using It = decltype(b);
+                if(fits_difference<It>(static_cast<std::ptrdiff_t>(i)))
+                {
+                    record_entry(cx, *(b + static_cast<typename It::difference_type>(i)));
+                    record_entry(cx, b[static_cast<typename It::difference_type>(i)]);
+                }
+                else
+                {
+                    record_entry(cx, *advanced(b, static_cast<std::ptrdiff_t>(i)));
+                    record_entry(cx, advanced(b, static_cast<std::ptrdiff_t>(i) - 1)[1]);
+                }
                 auto e = g.end();
-                e -= static_cast<std::ptrdiff_t>(i + 1);
+                e = advanced(e, -static_cast<std::ptrdiff_t>(i + 1));
                 record_entry(cx, *e);
             }
         }
@@ -1247,11 +1284,11 @@ void at_level(Ctx& cx, View v, std::size_t depth)
             auto pick = [&]() {
                 switch(st.route)
                 {
-                case 1: return *(g.begin() + i);
+                case 1: return *advanced(g.begin(), i);
                 case 2:
                 {
                     const std::ptrdiff_t back = (std::ptrdiff_t)g.size() - i;
-                    return *(g.end() - back);
+                    return *advanced(g.end(), -back);
                 }
                 case 3: return g.back();
                 case 4: return g.front();
@@ -1264,7 +1301,9 @@ void at_level(Ctx& cx, View v, std::size_t depth)
                 case 6:
                 {
                     const std::ptrdiff_t back = (std::ptrdiff_t)g.size() - i;
-                    return g.end()[-back];
+                    using It = decltype(g.end());
+                    if(fits_difference<It>(-back)) return g.end()[static_cast<typename It::difference_type>(-back)];
+                    return advanced(g.end(), -back + 1)[-1];
                 }
                 default: return g[(size_type)st.entry];
                 }
